@@ -61,6 +61,11 @@ class ListPool:
     def map(self, f, xs):
         return [f(x) for x in xs]
 
+    def __reduce__(self):
+        # like multiprocessing / multiprocess pools: a pool cannot be pickled, so anything that still
+        # references it when the sampler is pickled makes the save fail
+        raise NotImplementedError("pool objects cannot be passed between processes or pickled")
+
 
 class Unpicklable:
     """a likelihood dill cannot serialise (save must raise before touching the file system)"""
@@ -913,8 +918,14 @@ def suite_crash(tier, drv):
     for cfg, with_old in plan:
         seed = rng.randrange(2 ** 31)
         key = dict(cfg=cfg, seed=seed, old_checkpoint=with_old)
-        ops, sizes, results = crash_campaign(cfg, seed, with_old, tier, rng, eager_modes=(True, False) if (tier != "quick" or with_old) else (True,),
-                                             max_points=None)
+        try:
+            ops, sizes, results = crash_campaign(cfg, seed, with_old, tier, rng, eager_modes=(True, False) if (tier != "quick" or with_old) else (True,),
+                                                 max_points=None)
+        except Exception as e:  # noqa  (a save that raises outright is a disagreement, not an infrastructure problem)
+            c.case(key, True)
+            c.disagree(input=key, impl=f"save_state raised {type(e).__name__}: {e}", model="save succeeds in every configuration", kind="roundtrip",
+                       cfg=cfg, k=2, seed=seed)
+            continue
         ans = drv.batch(["fs.classify ops=" + ";".join(ops) + " final=final"])[0]
         proto = ans if ans in ("direct", "temprename") else None
         if proto is None:
